@@ -100,7 +100,8 @@ def confirm(exe, run_events, scen, pid, sig, workdir, module="TraceCircuit", cfg
     return False
 
 
-def attribute(chk, results, pid, exe, scen, flavour, workdir, max_confirm=6, also=(), module="TraceCircuit", exe_name="record"):
+def attribute(chk, results, pid, exe, scen, flavour, workdir, max_confirm=6, also=(), module="TraceCircuit", exe_name="record",
+              keep_events=False):
     """Turn TLC's contract-failure reports for property `pid` into violations / known findings."""
     confirmed = 0
     seen = set()
@@ -117,22 +118,49 @@ def attribute(chk, results, pid, exe, scen, flavour, workdir, max_confirm=6, als
                       "line": rep.get("line"), "event": rep.get("ev")}
             text = "%s at event %s of run %s (%s/%s): %s" % (f["p"], rep.get("ev"), rep["run"], scen, flavour,
                                                            json.dumps(f["why"])[:400])
+            if keep_events:
+                # schedule-dependent disagreement: the recorded run itself (both executions) is the evidence; it is
+                # re-validated by TLC on replay rather than expected to repeat when re-recorded
+                replay["events"] = events
+                replay["kind"] = "trace-events"
             if f["sig"] in chk.findings:
                 chk.violation(text, replay, f["sig"])
                 continue
-            if confirmed < max_confirm:
+            if keep_events:
+                if not confirm_events(events, f["p"], f["sig"], workdir, module):
+                    raise vlib.FrameworkError("TLC did not reject the stored events of run %s again" % rep["run"])
+            elif confirmed < max_confirm:
                 if not confirm(exe, events, scen, f["p"], f["sig"], workdir, module=module):
                     raise vlib.FrameworkError("rejection did not repeat when run %s was re-recorded alone: %s" % (rep["run"], text))
                 confirmed += 1
             chk.violation(text, replay, f["sig"])
 
 
+def confirm_events(events, pid, sig, workdir, module="TraceCircuit"):
+    h = hashlib.sha1(json.dumps(events, sort_keys=True).encode()).hexdigest()[:10]
+    out = os.path.join(workdir, "events-%s.ndjson" % h)
+    with open(out, "w") as f:
+        for e in events:
+            f.write(json.dumps(e) + "\n")
+    res, reports = _validate(out, module, None)
+    return any(f["p"] == pid and (sig is None or f["sig"] == sig) for rep in reports for f in rep["fails"])
+
+
 def replay_file(path):
     """Re-execute a replay file written by attribute(): exit 1 if the violation repeats."""
     data = json.load(open(path))
     rp = data["replay"]
-    exe = vlib.build_exe(rp["flavour"], rp.get("exe", "record"))
     d = vlib.scratch("replay")
+    if rp.get("kind") == "trace-events":
+        ok = confirm_events(rp["events"], data["property"], None, d, rp.get("module", "TraceCircuit"))
+        shutil.rmtree(d, ignore_errors=True)
+        if ok:
+            print("VIOLATION property=%s replay=%s" % (data["property"], path))
+            print("  what (recorded executions, re-validated by TLC): " + data["what"][:500])
+            return 1
+        print("replay %s: TLC accepts the stored events" % path)
+        return 0
+    exe = vlib.build_exe(rp["flavour"], rp.get("exe", "record"))
     ok = confirm(exe, [rp["reset"]], rp["scen"], data["property"], None, d, module=rp.get("module", "TraceCircuit"))
     shutil.rmtree(d, ignore_errors=True)
     if ok:
